@@ -1,6 +1,7 @@
 package reactive
 
 import "sync"
+import "github.com/samsarahq/thunder/verifhook"
 
 // node is the core of the observable dependency invalidation DAG and resource
 // freeing DAG
@@ -52,6 +53,7 @@ type node struct {
 func (n *node) Invalidated() bool {
 	n.mu.Lock()
 	result := n.invalidated
+	verifhook.At("reactive.node.Invalidated", n, result)
 	n.mu.Unlock()
 	return result
 }
@@ -64,6 +66,7 @@ func (n *node) strobe() {
 	for to := range n.out {
 		out = append(out, to)
 	}
+	verifhook.At("reactive.strobe.snapshot", n, out)
 	n.mu.Unlock()
 
 	for _, to := range out {
@@ -76,6 +79,7 @@ func (n *node) invalidate() {
 	// check if we should invalidate, and figure out who we should invalidate
 	n.mu.Lock()
 	if n.invalidated {
+		verifhook.At("reactive.invalidate.noop", n)
 		n.mu.Unlock()
 		return
 	}
@@ -91,6 +95,7 @@ func (n *node) invalidate() {
 	for to := range n.out {
 		out = append(out, to)
 	}
+	verifhook.At("reactive.invalidate.mark", n, out, n.afterInvalidate != nil)
 	n.mu.Unlock()
 
 	if n.afterInvalidate != nil {
@@ -104,16 +109,19 @@ func (n *node) invalidate() {
 }
 
 func (n *node) release() {
+	verifhook.At("reactive.release.enter", n)
 	n.invalidate()
 
 	// check if we should release
 	n.mu.Lock()
 	if n.released {
+		verifhook.At("reactive.release.noop", n)
 		n.mu.Unlock()
 		return
 	}
 
 	n.released = true
+	verifhook.At("reactive.release.mark", n, n.afterRelease != nil, len(n.in))
 	n.mu.Unlock()
 
 	if n.afterRelease != nil {
@@ -127,6 +135,7 @@ func (n *node) release() {
 		from.mu.Lock()
 		delete(from.out, n)
 		shouldRelease := len(from.out) == 0
+		verifhook.At("reactive.release.dep", from, n, shouldRelease)
 		from.mu.Unlock()
 
 		if shouldRelease {
@@ -161,6 +170,7 @@ func (n *node) addOut(to *node) {
 	// Release out if we did not add a dependency. This fulfills the contract
 	// that after one call to addOut, n is guaranteed to be eventually released.
 	shouldRelease := len(n.out) == 0
+	verifhook.At("reactive.addOut", n, to, !to.released, shouldInvalidate, shouldRelease)
 
 	to.mu.Unlock()
 	n.mu.Unlock()
@@ -175,6 +185,7 @@ func (n *node) addOut(to *node) {
 
 func (n *node) handleInvalidate(f func()) {
 	n.mu.Lock()
+	verifhook.At("reactive.handleInvalidate", n, n.invalidated)
 	if n.invalidated {
 		go f()
 	} else {
@@ -188,6 +199,7 @@ func (n *node) handleInvalidate(f func()) {
 
 func (n *node) handleRelease(f func()) {
 	n.mu.Lock()
+	verifhook.At("reactive.handleRelease", n, n.released)
 	if n.released {
 		go f()
 	} else {
